@@ -40,7 +40,7 @@ from yaql.standard_library import system as std_system
 import gens.registry as greg
 
 ID = 'C12'
-LEAN_MODULES = ['Yaql.Props.C12', 'Yaql.Props.C12Naming', 'Yaql.Props.C12Gen', 'Yaql.Props.C12Args']
+LEAN_MODULES = ['Yaql.Props.C12', 'Yaql.Props.C12Naming', 'Yaql.Props.C12Gen', 'Yaql.Props.C12Args', 'Yaql.Props.C12Spell']
 REQUIRED_THEOREMS = ['Yaql.Props.C12.call_equiv', 'Yaql.Props.C12.ext_both_ways', 'Yaql.Props.C12.kind_exclusive',
                      'Yaql.Props.C12.spelling_kw_move', 'Yaql.Props.C12.spelling_default_move',
                      'Yaql.Props.C12.spelling_equiv', 'Yaql.Props.C12.getDelegate_eq_of_received',
@@ -57,7 +57,10 @@ REQUIRED_THEOREMS = ['Yaql.Props.C12.call_equiv', 'Yaql.Props.C12.ext_both_ways'
                      'Yaql.Props.C12.toCamel_fixed', 'Yaql.Props.C12.toCamel_idempotent',
                      'Yaql.Props.C12.call_junk_invariant', 'Yaql.Props.C12.call_nonstring_key_dropped',
                      'Yaql.Props.C12.starstar_names_verbatim', 'Yaql.Props.C12.starstar_keywords_partition',
-                     'Yaql.Props.C12.starstar_all_verbatim', 'Yaql.Props.C12.starstar_delegate_verbatim']
+                     'Yaql.Props.C12.starstar_all_verbatim', 'Yaql.Props.C12.starstar_delegate_verbatim',
+                     'Yaql.Props.C12Spell.kwarg_name_token', 'Yaql.Props.C12Spell.spellable_sound',
+                     'Yaql.Props.C12Spell.spellable_complete', 'Yaql.Props.C12Spell.keyword_names_spellable',
+                     'Yaql.Props.C12Spell.seen_aliases_spellable', 'Yaql.Props.C12Spell.spellable_kinds']
 TRUSTED = ['harness/gens/registry.py (the dump of the live registry; the reading of decorators from the source text with ast)',
            'the typed value corpus and the canonicalisation of results (harness/values.py)',
            'harness/c12_worker.py (contexts created in the stated order before anything else in that interpreter)']
@@ -85,8 +88,8 @@ ASSUMPTIONS = ['spelling_equiv : spelling_equiv_full (whole argument vector, get
 
 
 def generate():
-    info = pyfacts.run(['Registry', 'RegistryConv'])
-    return dict(info['Registry'], conv=info['RegistryConv'])
+    info = pyfacts.run(['Registry', 'RegistryConv', 'OpTables'])
+    return dict(info['Registry'], conv=info['RegistryConv'], optables=info['OpTables'])
 
 
 ENGINE = factory.YaqlFactory().create(options={'yaql.limitIterators': 200, 'yaql.memoryQuota': 5000000})
@@ -196,9 +199,12 @@ def materialize(v, depth=0):
     return 'obj:' + type(v).__name__
 
 
+TIMEOUTS = dict(limit=1.0, base=1.0, seen=0, tuples_rerun=0, confirmed=0)
+
+
 def outcome(thunk):
     signal.signal(signal.SIGALRM, _alarm)
-    signal.setitimer(signal.ITIMER_REAL, 1.0)
+    signal.setitimer(signal.ITIMER_REAL, TIMEOUTS['limit'])
     try:
         try:
             r = thunk()
@@ -206,6 +212,7 @@ def outcome(thunk):
         finally:
             signal.setitimer(signal.ITIMER_REAL, 0)
     except Timeout:
+        TIMEOUTS['seen'] += 1
         return 'err:Timeout'
     except RecursionError:
         return 'err:RecursionError'
@@ -241,6 +248,14 @@ def documented_name(fd, p, conv='camel'):
         # alias stays empty) or as `from` (what convert_parameter_name(name, None) would give): no promise to test
         return p.alias or p.name
     return greg.promised_kw(conv, decl, p.name)
+
+
+def _default_of(p):
+    """factory of the default value of `p`, recognisable as such (the text spellings cannot write every default)"""
+    def f():
+        return p.default
+    f.default_of = p
+    return f
 
 
 def spellings(fd, vis, kwonly, choice, conv='camel'):
@@ -285,7 +300,7 @@ def spellings(fd, vis, kwonly, choice, conv='camel'):
             if given[i]:
                 args.append(choice[vis[i].name][1])
             elif vis[i].default is not specs.NO_DEFAULT:
-                args.append((lambda d: (lambda: d))(vis[i].default))
+                args.append(_default_of(vis[i]))
             else:
                 ok = False
         if ok:
@@ -507,8 +522,63 @@ def junk_sets(rng, kwnames):
     out.append(('junk-many', ks[:cut], ks[cut:]))
     return out
 
+# ---- spellings WRITTEN AS EXPRESSION TEXT ---------------------------------------------------------------------------
+# "by keyword (using the convention-translated parameter names)" is something a user TYPES: `f(x, name => y)`.  The
+# delegates above never meet the lexer / the grammar; a parameter whose promised name cannot be written (an operator
+# word such as `mod`, `in`, `not`; `true`; a name the grammar takes for something else) is only seen when the spelling
+# goes through the parser.  Plain values are bound to variables `$v0, $v1 ..` of a child context (so any corpus value
+# can be an argument); lazy / constant-typed arguments are written as the expression / literal they are.
 
-def sweep_context(conv, root, rng, per_fd, sink, replay=None, model_reqs=None, where=None, call_budget=3):
+IDENT = re.compile(r'^[^\W\d]\w*$')
+_TEXT_OF = {'c:1': '1', 'c:a': "'a'", 'c:true': 'true', 'c:null': 'null', 'm:1=>2': '1 => 2'}
+
+
+def text_spelling(name, recv_i, argf, kwf, recv_mk, lab_of):
+    """-> (expression text, {variable: factory}) of one spelling of `spellings()`"""
+    binds = {}
+
+    for a in argf:
+        p = getattr(a, 'default_of', None)
+        if p is not None and (p.default is utils.NO_VALUE or isinstance(p.value_type, yaqltypes.LazyParameterType)):
+            return None, None       # a default that is no value an expression can denote (the marker / a lazy slot)
+
+    def t(mk, head=False):
+        lab = lab_of.get(id(mk))
+        if lab is not None and not is_plain(lab):
+            txt = _TEXT_OF.get(lab) or lab.split(':', 1)[1]
+            return '(%s)' % txt if head else txt
+        v = '$v%d' % len(binds)
+        binds[v] = mk
+        return v
+    head = name + '(' if recv_i is None else t(recv_mk, True) + '.' + name + '('
+    parts = ['' if a is utils.NO_VALUE else t(a) for a in argf]
+    parts += ['%s => %s' % (k, t(f)) for k, f in kwf.items()]
+    return head + ', '.join(parts) + ')', binds
+
+
+def text_call_spelling(name, argf, kwf, lab_of):
+    """the same spelling through call(name, [args], {kwargs}), written as text"""
+    binds = {}
+
+    def t(mk):
+        v = '$v%d' % len(binds)
+        binds[v] = mk
+        return v
+    return "call('%s', [%s], {%s})" % (name, ', '.join(t(a) for a in argf),
+                                       ', '.join('%s => %s' % (k, t(f)) for k, f in kwf.items())), binds
+
+
+def eval_text(text, binds, ctx):
+    def thunk():
+        c2 = ctx.create_child_context()
+        for v, mk in binds.items():
+            c2[v] = mk()
+        return ENGINE(text).evaluate(context=c2)
+    return outcome(thunk)
+
+
+def sweep_context(conv, root, rng, per_fd, sink, replay=None, model_reqs=None, where=None, call_budget=3, focus=(),
+                  text_tuples=40, rbase=None):
     """(A) over every definition of the context `root`, whose naming convention is `conv`"""
     global _CTX_VALUE
     defs = greg.all_definitions(root)
@@ -519,7 +589,7 @@ def sweep_context(conv, root, rng, per_fd, sink, replay=None, model_reqs=None, w
     names_count = {}
     for _, n2, _ in defs:
         names_count[n2] = names_count.get(n2, 0) + 1
-    rbase = rng.random()
+    rbase = rng.random() if rbase is None else rbase
     for di, (li, name, fd) in enumerate(defs):
         if replay and replay.get('def') != di:
             continue
@@ -544,10 +614,20 @@ def sweep_context(conv, root, rng, per_fd, sink, replay=None, model_reqs=None, w
             tuples.add(tuple(ch))
             if len(tuples) >= per_fd:
                 break
-        for ch in sorted(tuples, key=repr):
+        if name in focus and all(cands[p.name] for p in vis + kwonly):
+            # the translator flagged a parameter name of this function: make sure every parameter is given in some tuples
+            bump('focus-definitions')
+            for _ in range(6):
+                tuples.add(tuple(rng.randrange(len(cands[p.name])) for p in vis + kwonly))
+        for ti, ch in enumerate(sorted(tuples, key=repr)):
             if replay and list(ch) != replay['choice']:
                 continue
             crng = common.make_rng(rbase, 'case/%d/%r' % (di, ch))
+            pending = []
+            seen_before = TIMEOUTS['seen']
+
+            def report(kind, key, what, rp, pending=pending):
+                pending.append((kind, key, what, rp))
             choice = {p.name: (None if c is None else cands[p.name][c]) for p, c in zip(vis + kwonly, ch)}
             labels = {p.name: (None if c is None else cands[p.name][c][0]) for p, c in zip(vis + kwonly, ch)}
             sp = spellings(fd, vis, kwonly, choice, conv)
@@ -571,6 +651,18 @@ def sweep_context(conv, root, rng, per_fd, sink, replay=None, model_reqs=None, w
                     return ctx(name, ENGINE, recv, function_filter=flt)(*args, **kw)
                 outs.append((tag, outcome(lambda: thunk(only_fd))))
                 outs_u.append((tag, outcome(lambda: thunk(None))))
+            # the same spellings WRITTEN AS TEXT and parsed (plain name resolution): every one that can be written must give
+            # what the positional text spelling gives
+            text_outs = []
+            if IDENT.match(name) and outs and outs[0][1] != 'err:Timeout' and (ti < text_tuples or name in focus or replay):
+                lab_of = {id(c[1]): c[0] for c in choice.values() if c is not None}
+                recv_mk = choice[vis[0].name][1] if vis and choice[vis[0].name] is not None else None
+                for tag, recv_i, argf, kwf in sp:
+                    txt, binds = text_spelling(name, recv_i, argf, kwf, recv_mk, lab_of)
+                    if txt is None:
+                        continue
+                    text_outs.append((tag, txt, eval_text(txt, binds, ctx), argf, kwf))
+                    bump('text-spelling:' + tag.split('@')[0])
             base = outs[0][1]
             # call(name, args, kwargs): only plain values can go through a list / dict.  It resolves by name, so each
             # spelling is compared with the SAME spelling made directly through name resolution (outs_u)
@@ -635,7 +727,7 @@ def sweep_context(conv, root, rng, per_fd, sink, replay=None, model_reqs=None, w
             sink.case(common.digest(case), resolved and len(outs) >= 2, sample=case)
             for stag, vtag, direct, o, keys in call_fail:
                 nonstring = vtag.startswith('nonstring:')
-                sink.fail('oracle', 'call-nonstring-key:' + name if nonstring else 'call:' + name,
+                report('oracle', 'call-nonstring-key:' + name if nonstring else 'call:' + name,
                           '[%s context] %s %r spelling %s: made directly -> %s but call(%s, args, kwargs%s) -> %s' % (
                               conv, name, labels, stag.split('/')[0], direct[:100], name,
                               ' + keys %r that are no keywords' % (keys,) if keys else '', o[:100]),
@@ -644,7 +736,7 @@ def sweep_context(conv, root, rng, per_fd, sink, replay=None, model_reqs=None, w
                 diff = [(t, o) for t, o in outs if o != base and '/' not in t]
                 if diff:
                     kws = next((sorted(kwf) for tag, _, _, kwf in sp if tag == diff[0][0]), [])
-                    sink.fail('oracle', 'spelling:' + name,
+                    report('oracle', 'spelling:' + name,
                               '[%s context%s] %s %r: positional -> %s but %s (keywords %s) -> %s' % (
                                   conv, ' #%d of %s' % (where['ctx_index'], '>'.join(where['order'])) if where else '',
                                   name, labels, base[:120], diff[0][0], ', '.join(kws), diff[0][1][:120]), case)
@@ -653,7 +745,7 @@ def sweep_context(conv, root, rng, per_fd, sink, replay=None, model_reqs=None, w
                     # AMBIGUOUS (not: answered by another overload that owns these names) contradicts the statement
                     amb = [(t, o) for t, o in outs_u if o.startswith('err:Ambiguous')]
                     if amb:
-                        sink.fail('oracle', 'kw-ambiguous:' + name,
+                        report('oracle', 'kw-ambiguous:' + name,
                                   '[%s context] %s %r: positional -> %s but by keyword (%s) -> %s' % (
                                       conv, name, labels, base[:80], amb[0][0], amb[0][1]), case)
                     else:
@@ -663,10 +755,47 @@ def sweep_context(conv, root, rng, per_fd, sink, replay=None, model_reqs=None, w
                         bump('name-resolution-spellings', len(outs_u))
                         if du:
                             kws = next((sorted(kwf) for tag, _, _, kwf in sp if tag == du[0][0]), [])
-                            sink.fail('oracle', 'spelling-overloaded:' + name,
+                            report('oracle', 'spelling-overloaded:' + name,
                                       '[%s context] %s %r through name resolution (all overloads of the name): positional '
                                       '-> %s but %s (keywords %s) -> %s' % (conv, name, labels, base[:120], du[0][0],
                                                                             ', '.join(kws), du[0][1][:120]), case)
+            if text_outs and text_outs[0][2] not in NOT_RESOLVED and not text_outs[0][2].startswith('err:Yaql'):
+                tbase = text_outs[0]
+                bump('text-tuples')
+                tdiff = [t for t in text_outs if t[2] != tbase[2]]
+                if plain and fd.is_function and names_count.get(name) == 1:
+                    # call() written as text, for one keyword spelling of the tuple (kwargs keys are bare words there too)
+                    cand = [t for t in text_outs if t[4] and all(a is not utils.NO_VALUE for a in t[3]) and
+                            not t[0].startswith('method')]
+                    if cand:
+                        t = crng.choice(cand)
+                        txt, binds = text_call_spelling(name, t[3], t[4], None)
+                        o = eval_text(txt, binds, ctx)
+                        bump('text-spelling:call()')
+                        if o != tbase[2]:
+                            tdiff.append((t[0] + '/call()', txt, o, t[3], t[4]))
+                if tdiff:
+                    d = tdiff[0]
+                    report('oracle', 'text-spelling:' + name,
+                              '[%s context%s] %s %r written as text: `%s` -> %s but `%s` -> %s' % (
+                                  conv, ' #%d of %s' % (where['ctx_index'], '>'.join(where['order'])) if where else '',
+                                  name, labels, tbase[1], tbase[2][:100], d[1], d[2][:100]),
+                              dict(case, text=d[1], text_base=tbase[1]))
+            if pending and TIMEOUTS['seen'] > seen_before and TIMEOUTS['limit'] < 5.0:
+                # a spelling of this tuple ran into the wall-clock limit: on a loaded machine a stalled process looks like a
+                # call that does not terminate.  The whole tuple once more with a generous limit; what it reports counts
+                TIMEOUTS['tuples_rerun'] += 1
+                TIMEOUTS['limit'] = 8.0
+                try:
+                    again = Sink()
+                    sweep_context(conv, root, None, per_fd, again, replay=dict(case, **{'def': di, 'choice': list(ch)}),
+                                  where=where, call_budget=call_budget, focus=focus, text_tuples=text_tuples, rbase=rbase)
+                finally:
+                    TIMEOUTS['limit'] = TIMEOUTS['base']
+                pending[:] = [tuple(f) for f in again.fails]
+                TIMEOUTS['confirmed'] += 1 if pending else 0
+            for f in pending:
+                sink.fail(*f)
             # (B) the model on the same spellings, against the real definition's own binding
             if model_reqs is not None:
                 calls = []
@@ -925,10 +1054,10 @@ ORDERS_THOROUGH = ORDERS_QUICK + (('python', 'none', 'camel', 'python', 'camel')
 WORKER = os.path.join(os.path.dirname(os.path.dirname(os.path.abspath(__file__))), 'c12_worker.py')
 
 
-def start_worker(order, seed, per_fd, replay=None):
+def start_worker(order, seed, per_fd, replay=None, focus=()):
     p = subprocess.Popen([sys.executable, '-W', 'ignore', WORKER], stdin=subprocess.PIPE, stdout=subprocess.PIPE,
                          stderr=subprocess.PIPE, cwd='/tmp')
-    p.stdin.write(json.dumps(dict(order=list(order), seed=seed, per_fd=per_fd, replay=replay)).encode())
+    p.stdin.write(json.dumps(dict(order=list(order), seed=seed, per_fd=per_fd, replay=replay, focus=sorted(focus))).encode())
     p.stdin.close()
     p.stdin = None
     return p
@@ -945,10 +1074,13 @@ def worker_main(req, ctxs):
             continue
         rng = common.make_rng(req['seed'], 'C12/%s/%d' % ('>'.join(order), i))
         before = dict(sink.hist)
-        sweep_context(conv, root, rng, req['per_fd'], sink, replay=rp, where=dict(order=order, ctx_index=i), call_budget=2)
+        sweep_context(conv, root, rng, req['per_fd'], sink, replay=rp, where=dict(order=order, ctx_index=i), call_budget=2,
+                      focus=set(req.get('focus') or ()))
         sink.bump('context:%s' % conv)
         sink.bump('tuples:%s#%d-of-%s' % (conv, i, '>'.join(o[0] for o in order)),
                   sink.hist.get('tuples', 0) - before.get('tuples', 0))
+    for k in ('seen', 'tuples_rerun', 'confirmed'):
+        sink.bump('timeouts-' + k, TIMEOUTS[k])
     return dict(hist=sink.hist, cases=sink.cases, fails=sink.fails, ties=sink.ties)
 
 
@@ -1129,17 +1261,24 @@ def run(env, res):
     if replay and 'def' not in replay:
         replay = None                   # a tie-only finding: run everything
     # the other conventions and creation orders, in interpreters of their own (started first, collected last)
+    # functions with a parameter whose promised keyword name the translator's transcription of the lexer rule finds
+    # unwritable (`Props/C12Spell.keyword_names_spellable` fails to build then): the sweep gives them more tuples
+    unsp = ((env.get('gen') or {}).get('conv') or {}).get('unspellable') or []
+    focus = {r[1] for r in unsp}
+    if unsp:
+        res.extra['unspellable_keyword_names'] = unsp
     workers = []
     if replay is None:
         for order in (ORDERS_QUICK if tier == 'quick' else ORDERS_THOROUGH):
-            workers.append((order, start_worker(order, env['seed'], per_fd_conv)))
+            workers.append((order, start_worker(order, env['seed'], per_fd_conv, focus=focus)))
     elif replay.get('order'):
-        workers.append((replay['order'], start_worker(replay['order'], env['seed'], per_fd_conv, replay)))
+        workers.append((replay['order'], start_worker(replay['order'], env['seed'], per_fd_conv, replay, focus)))
     model_reqs = []
     root = yaql.create_context()
     defs = greg.all_definitions(root)
     if replay is None or not replay.get('order'):
-        sweep_context('camel', root, rng, per_fd, sink, replay=replay, model_reqs=model_reqs if drv is not None else None)
+        sweep_context('camel', root, rng, per_fd, sink, replay=replay, model_reqs=model_reqs if drv is not None else None,
+                      focus=focus)
     for order, p in workers:
         collect_worker(order, p, sink, res, 240 if tier == 'quick' else 1500)
     hist = sink.hist
@@ -1223,12 +1362,16 @@ def run(env, res):
     if not replay or replay.get('kind') == 'arglist':
         import props.c12args as c12args
         c12args.run(env, res, hist)
+    hist['timeouts (main interpreter)'] = dict(TIMEOUTS)
     res.extra['histogram'] = hist
     return res
 
 
 
-LEVEL_TEXT = ('Lean 4: call_equiv, ext_both_ways, kind_exclusive, spelling_equiv (= spelling_equiv_full, the whole argument vector: '
+LEVEL_TEXT = ('Lean 4 (round 5: C12Spell - kwarg_name_token, spellable_sound / spellable_complete over the lexer model for every '
+              'configuration and word; keyword_names_spellable by decide +kernel: every keyword-passable parameter name of every '
+              'registered definition under each convention is a word the lexer leaves a KEYWORD_STRING under the default and the '
+              'legacy operator table); call_equiv, ext_both_ways, kind_exclusive, spelling_equiv (= spelling_equiv_full, the whole argument vector: '
               'any two spellings that give every named parameter the same value - in its slot, by keyword in any order, or '
               'defaulted: left out / empty slot / written out - bind the same vector in get_delegate or fail alike; via '
               'getDelegate_eq_of_received), spelling_kw_move / spelling_default_move (the one-parameter moves), '
